@@ -137,6 +137,7 @@ func stackQueries(c *ctx, ts []tableCase, maxk int) []string {
 			qs = append(qs, "sr:"+hxs(k))
 		}
 		qs = append(qs, fmt.Sprintf("sl:%s:%d", hxs(n), c.rng.Intn(12)), fmt.Sprintf("sl:%s:%d", hxs(n), ^uint64(0)))
+		qs = append(qs, "rr:"+hxs(n), "rr:"+hxs(n+"\x00"), fmt.Sprintf("rl:%s:%d", hxs(n), c.rng.Intn(12)))
 	}
 	for _, o := range oids {
 		qs = append(qs, "rf:"+o)
